@@ -982,5 +982,3 @@ def _execute(p, s, res):
             inp.__exit__(None, None, None)
         except (Quiescent, StepCap, SimAbort):
             pass
-    if world.faults.get("preempt"):
-        pass
